@@ -52,7 +52,7 @@ Proof.
   - reflexivity.
   - apply wf_vuuid, Hid.
   - apply layout_value_wf, Hl.
-  - cbn [wf]. unfold lenN in *. rewrite map_length, Hn, Hnd. cbn [andb].
+  - cbn [wf]. unfold lenN, uuid in *. rewrite map_length, Hn, Hnd. cbn [andb].
     rewrite forallb_forall in *. intros k Hk. apply in_map_iff in Hk as (u & <- & Hu'). cbn [key_ok].
     specialize (Hu u Hu'). unfold uuid_ok in Hu. exact Hu.
 Qed.
@@ -84,7 +84,7 @@ Proof.
   intros Hok He. unfold encode_intro in He. bind_ok He bss E. ok_inv He.
   unfold de_as_value.
   pose proof (struct1_mixed_de (intro_fields r) bss []
-                (S (S (length (intro_fields r) + fold_right (fun p m => fuel_of (snd p) + m) 0%nat (intro_fields r))))
+                (S (S (length (intro_fields r) + fold_right (fun p m => (fuel_of (snd p) + m)%nat) 0%nat (intro_fields r))))
                 eq_refl eq_refl (intro_fields_wf r Hok) E (le_n _)) as D.
   rewrite app_nil_r in D. rewrite (de_value_stable _ _ _ _ D) by discriminate. reflexivity.
 Qed.
@@ -135,7 +135,7 @@ Qed.
 
 Lemma umap_get_in k m v : umap_get k m = Some v -> In v (map snd m).
 Proof.
-  unfold umap_get. destruct (find _ m) as [p|] eqn:F; cbn [option_map]; [|discriminate].
+  unfold umap_get. destruct (find (fun p => list_eqb k (fst p)) m) as [p|] eqn:F; cbn [option_map]; [|discriminate].
   intros E. injection E as <-. apply find_some in F as [Hin _]. apply in_map, Hin.
 Qed.
 
@@ -191,8 +191,8 @@ Proof.
       destruct (otrav g (fn_ok a)) eqn:Eo; cbn [obind] in Hab; [|discriminate].
       destruct (otrav g (fn_err a)) eqn:Ee; cbn [obind] in Hab; [|discriminate].
       injection Hab as <-. cbn [fn_args fn_ok fn_err]. intros v Hv.
-      apply in_app_or in Hv as [Hv|Hv]; [eapply otrav_img; eassumption|].
-      apply in_app_or in Hv as [Hv|Hv]; eapply otrav_img; eassumption.
+      apply in_app_or in Hv as [Hv|Hv]; [eapply otrav_img; [exact Ea|exact Hv]|].
+      apply in_app_or in Hv as [Hv|Hv]; [eapply otrav_img; [exact Eo|exact Hv]|eapply otrav_img; [exact Ee|exact Hv]].
     + apply (atrav_img (evtrav g) (fun e => orefs (ev_ty e)) _ _) with (u := u) in E2; [exact E2| |exact Hu].
       intros a b Hab. unfold evtrav in Hab. destruct (otrav g (ev_ty a)) eqn:Eo; cbn [option_map] in Hab; [|discriminate].
       injection Hab as <-. cbn [ev_ty]. eapply otrav_img, Eo.
